@@ -335,14 +335,14 @@ pub proof fn lemma_esds_roundtrip(d: Seq<u8>, p: int, b: EsdsBox)
     assert(esd_of(s, q + 6, 25) == e);
 }
 
-// ---- stsd (8.5.2), encode side: FullBox, entry_count = 1, the sample entry. Byte-exact for the entries whose encoders are
-//      (avc1, vp09, mp4a); hev1 and tx3g entries are covered by size only.
-pub open spec fn stsd_entry_exact(b: StsdBox) -> bool {
-    b.avc1 is Some || (b.hev1 is None && (b.vp09 is Some || b.mp4a is Some || b.tx3g is None))
-}
+// ---- stsd (8.5.2), encode side: FullBox, entry_count = 1, the sample entry (the first present one of avc1, hev1, vp09, mp4a, tx3g:
+//      the crate writes at most one). All five entry encoders are byte-exact, so the predicate is true; it is kept as the place
+//      where a future entry type without a byte-exact encoder would be excluded.
+pub open spec fn stsd_entry_exact(b: StsdBox) -> bool { true }
 pub open spec fn stsd_entry_bytes(b: StsdBox) -> Seq<u8> {
-    if b.avc1 is Some { avc1_bytes(b.avc1->Some_0) } else if b.vp09 is Some { vp09_bytes(b.vp09->Some_0) }
-    else if b.mp4a is Some { mp4a_bytes(b.mp4a->Some_0) } else { Seq::empty() }
+    if b.avc1 is Some { avc1_bytes(b.avc1->Some_0) } else if b.hev1 is Some { hev1_bytes(b.hev1->Some_0) }
+    else if b.vp09 is Some { vp09_bytes(b.vp09->Some_0) } else if b.mp4a is Some { mp4a_bytes(b.mp4a->Some_0) }
+    else if b.tx3g is Some { tx3g_bytes(b.tx3g->Some_0) } else { Seq::empty() }
 }
 pub open spec fn stsd_head(b: StsdBox) -> Seq<u8> {
     hdr_bytes(stsd_len(b) as u64, 0x73747364) + fullbox_bytes(b.version, b.flags) + be_bytes(1, 4)
